@@ -184,6 +184,27 @@ def forAttrs (h : Heap) : List (String × Self) → (Heap → Self → Except Er
       | .error e => .error e
       | .ok (h'', t') => .ok (h'', (n, a') :: t')
 
+/-- a numpy array handed over by the caller (`register_array_as_attribute`): an OBJECT of the heap (a matrix cell; a 1-D array is
+kept as rows of one component) with what the code asks about it -/
+structure ArrIn where
+  ref : Nat          -- the array object
+  ty : Ty            -- `type(data[0,0].item())`: the attribute type of its items
+  exact : Bool       -- its dtype IS the storage dtype of that type (float64 / int64 / bool …; not uint8 / int32 / float32)
+  ndim : Nat         -- `len(data.shape)`
+  k : Nat            -- `data.shape[1]` when `ndim = 2`
+  deriving Inhabited
+
+def ArrIn.rows (a : ArrIn) (h : Heap) : List Val := cellMat h a.ref
+/-- `data.shape[0]` -/
+def ArrIn.shape0 (a : ArrIn) (h : Heap) : Nat := (a.rows h).length
+/-- `data.shape[1]` (IndexError on a 1-D array) -/
+def ArrIn.shape1? (a : ArrIn) : Option Nat := if 2 ≤ a.ndim then some a.k else none
+/-- `data[:, np.newaxis]`: a VIEW of the same object with one more axis of length 1 -/
+def ArrIn.newaxis (a : ArrIn) : ArrIn := { a with ndim := a.ndim + 1, k := 1 }
+/-- `data.astype(dtype_of ty, copy=False)`: the object itself when nothing has to be converted, else a NEW converted array -/
+def astypeNoCopy (h : Heap) (a : ArrIn) (ty : Ty) : Heap × Nat :=
+  if a.exact && decide (a.ty = ty) then (h, a.ref) else allocMat h ((a.rows h).map (fun r => r.map (castTo ty)))
+
 /-- the right operand of `container += other` -/
 inductive SeqKind where
   | list | tuple | set
